@@ -1,8 +1,18 @@
 // @unit c15_cli property=C15 attach=verif-c15/src/lib.rs
-// @h c15_spec_names tier=both bounded=enumerated-literal-crate-names
-// @h c15_spec_renames tier=both bounded=enumerated-literal-crate-names
+// @h c15_spec_name_a tier=both bounded=one-literal-specifier
+// @h c15_spec_name_a1 tier=both bounded=one-literal-specifier
+// @h c15_spec_name_oxnet2 tier=both bounded=one-literal-specifier
+// @h c15_spec_name_hyphen tier=both bounded=one-literal-specifier
+// @h c15_spec_name_underscore tier=both bounded=one-literal-specifier
+// @h c15_spec_name_upper tier=both bounded=one-literal-specifier
+// @h c15_spec_rename_plain tier=both bounded=one-literal-specifier
+// @h c15_spec_rename_digit tier=both bounded=one-literal-specifier
+// @h c15_spec_rename_hyphen tier=both bounded=one-literal-specifier
+// @h c15_output_path_stdout tier=both bounded=one-literal-path
+// @h c15_output_path_given tier=both bounded=one-literal-path
+// @h c15_output_path_default tier=both bounded=one-literal-path
+// @h c15_output_path_default_dir tier=both bounded=one-literal-path
 // @h c15_spec_versions tier=both bounded=enumerated-literal-specifiers
-// @h c15_output_path tier=both bounded=enumerated-literal-paths
 // @h c15_use_builder tier=both
 // @canary canary_c15_cli
 //
@@ -55,42 +65,29 @@ fn check_spec(bytes: &[u8], name: &[u8], rename: Option<&[u8]>) {
 }
 
 /// Symbolic crate-name characters do not terminate: `char::is_alphanumeric` on a symbolic
-/// char walks the Unicode tables (CBMC ran out of memory at 14 GB even for a 1-character
-/// name). The names are therefore ENUMERATED literals chosen to cover the grammar's classes
-/// (letters, digits in every position but the first, `-`, `_`, upper case, renames); a
-/// symbolic selector chooses between calls.
-#[kani::proof]
-#[kani::unwind(16)]
-fn c15_spec_names() {
-    let k: u8 = kani::any();
-    match k {
-        0 => check_spec(b"a@*", b"a", None),
-        1 => check_spec(b"Z@*", b"Z", None),
-        2 => check_spec(b"a1@*", b"a1", None),
-        3 => check_spec(b"oxnet2@*", b"oxnet2", None),
-        4 => check_spec(b"base64@*", b"base64", None),
-        5 => check_spec(b"a-b@*", b"a-b", None),
-        6 => check_spec(b"a_b@*", b"a_b", None),
-        7 => check_spec(b"x9-y_0@*", b"x9-y_0", None),
-        8 => check_spec(b"Uuid@*", b"Uuid", None),
-        _ => check_spec(b"serde_json@*", b"serde_json", None),
-    }
-    kani::cover!(k == 3, "[must] a name with a digit is probed");
+/// char walks the Unicode tables (CBMC ran out of memory even for a 1-character name), and a
+/// symbolic selector over ten literal calls does not finish in 20 minutes either. One
+/// harness per ENUMERATED literal, chosen to cover the grammar's classes (letters, digits in
+/// every position but the first, `-`, `_`, upper case, renames).
+macro_rules! spec {
+    ($name:ident, $s:expr, $crate_name:expr, $rename:expr) => {
+        #[kani::proof]
+        #[kani::unwind(16)]
+        fn $name() {
+            check_spec($s, $crate_name, $rename)
+        }
+    };
 }
 
-#[kani::proof]
-#[kani::unwind(16)]
-fn c15_spec_renames() {
-    let k: u8 = kani::any();
-    match k {
-        0 => check_spec(b"b=a@*", b"a", Some(b"b")),
-        1 => check_spec(b"new2=orig@*", b"orig", Some(b"new2")),
-        2 => check_spec(b"my-uuid=uuid@*", b"uuid", Some(b"my-uuid")),
-        3 => check_spec(b"a_1=b-2@*", b"b-2", Some(b"a_1")),
-        _ => check_spec(b"X=y@*", b"y", Some(b"X")),
-    }
-    kani::cover!(k == 1, "[must] a rename with a digit is probed");
-}
+spec!(c15_spec_name_a, b"a@*", b"a", None);
+spec!(c15_spec_name_a1, b"a1@*", b"a1", None);
+spec!(c15_spec_name_oxnet2, b"oxnet2@*", b"oxnet2", None);
+spec!(c15_spec_name_hyphen, b"a-b@*", b"a-b", None);
+spec!(c15_spec_name_underscore, b"a_b9@*", b"a_b9", None);
+spec!(c15_spec_name_upper, b"Uuid@*", b"Uuid", None);
+spec!(c15_spec_rename_plain, b"b=a@*", b"a", Some(b"b"));
+spec!(c15_spec_rename_digit, b"new2=orig@*", b"orig", Some(b"new2"));
+spec!(c15_spec_rename_hyphen, b"my-x=x_y@*", b"x_y", Some(b"my-x"));
 
 fn expect_version(s: &str, want: u8) {
     // want: 0 = Err, 1 = Any, 2 = Never, 3 = Version
@@ -141,17 +138,7 @@ fn args(input: &str, output: Option<&str>, no_builder: bool, builder: bool) -> C
     }
 }
 
-#[kani::proof]
-#[kani::unwind(20)]
-fn c15_output_path() {
-    let k: u8 = kani::any();
-    let (a, want): (CliArgs, Option<&str>) = match k {
-        0 => (args("in.json", Some("-"), false, false), None),
-        1 => (args("in.json", Some("o.rs"), false, false), Some("o.rs")),
-        2 => (args("in.json", None, false, false), Some("in.rs")),
-        3 => (args("d/in.json", None, false, false), Some("d/in.rs")),
-        _ => (args("in", None, false, false), Some("in.rs")),
-    };
+fn check_output_path(a: CliArgs, want: Option<&str>) {
     let got = a.output_path();
     match (&got, want) {
         (None, None) => {}
@@ -161,10 +148,24 @@ fn c15_output_path() {
         ),
         _ => kani::assert(false, "[C15/P3] stdout (`-`) and file output confused"),
     }
-    kani::cover!(got.is_none(), "[must] stdout case reachable");
     core::mem::forget(got);
     core::mem::forget(a);
 }
+
+macro_rules! outp {
+    ($name:ident, $input:expr, $output:expr, $want:expr) => {
+        #[kani::proof]
+        #[kani::unwind(20)]
+        fn $name() {
+            check_output_path(args($input, $output, false, false), $want)
+        }
+    };
+}
+
+outp!(c15_output_path_stdout, "in.json", Some("-"), None);
+outp!(c15_output_path_given, "in.json", Some("o.rs"), Some("o.rs"));
+outp!(c15_output_path_default, "in.json", None, Some("in.rs"));
+outp!(c15_output_path_default_dir, "d/in.json", None, Some("d/in.rs"));
 
 #[kani::proof]
 fn c15_use_builder() {
